@@ -71,7 +71,16 @@ def compare(ctx, rc, tags, base, other, mode):
         return
     if mode == "stat":
         return
-    if not eqv(base["quantile"], other["quantile"], exact=(mode == "exact")):
+    near_tie = False
+    if mode != "exact" and base["dist"] is not None and base["stat"] is not None and base["stat"].size == 1 and base["dist"].size:
+        # an empirical quantile counts entries >= / <= the statistic: when an entry equals the statistic to rounding, re-ordered sums may
+        # legitimately flip that comparison ("unchanged to rounding"), so the quantile is only compared when no such near-tie exists
+        s0 = float(base["stat"][0])
+        with numpy.errstate(invalid="ignore"):
+            near_tie = bool(numpy.any(numpy.abs(base["dist"] - s0) <= 1e-9 * (1.0 + abs(s0))))
+    if near_tie:
+        ctx.add("quantile_comparisons_skipped_for_near_ties")
+    elif not eqv(base["quantile"], other["quantile"], exact=(mode == "exact")):
         ctx.violate("quantile changes with storage order", rc, observed=other["quantile"], expected=base["quantile"], tags=dict(tags, clause="quantile"))
     bd, od = base["dist"], other["dist"]
     if bd is None or od is None:
@@ -253,6 +262,33 @@ def ex_catalog(ctx, fc, seed=0):
                     compare(ctx, rc, tags, b, o, "exact" if which == "events" else "stat")
                 else:
                     compare(ctx, rc, tags, b, o, "multiset")
+        # (c) the forecast's region lists the same cells in another order while the synthetic catalogs still carry the original region
+        #     (history: evaluated on R, then a forecast is built from the same catalog objects on R-permuted)
+        from csep.core.forecasts import CatalogForecast
+        from csep.core import regions as _regions
+        f0, obs0, reg0, mags0 = c10.build(fc, "memory", tmp)
+        ncell = reg0.num_nodes
+        if ncell >= 2:
+            perm = rng.permutation(ncell)
+            reg2 = _regions.CartesianGrid2D.from_origins(reg0.origins()[perm], dh=float(reg0.dh), magnitudes=mags0)
+            other = {}
+            for name, fn, kw, kind in tests:
+                f1, obs1, reg1, _m = c10.build(fc, "memory", tmp)
+                cats = list(f1.catalogs)                       # bound to reg1 (original order)
+                f2 = CatalogForecast(catalogs=cats, region=reg2, n_cat=len(cats), name="cf")
+                obs1.region = reg2
+                ok, res, tb = ctx.call(fn, f2, obs1, **kw)
+                other[name] = sig(res, kind) if ok else ("raised", type(res).__name__)
+            ctx.count(len(tests))
+            for name, fn, kw, kind in tests:
+                ctx.mon("pair:cells", 1)
+                tags = {"perm": "cells-region-rebound", "test": name}
+                b, o = base[name], other[name]
+                if isinstance(b, tuple) or isinstance(o, tuple):
+                    if b != o:
+                        ctx.violate("evaluation raises for one storage order only", rc, observed=repr(o)[:100], expected=repr(b)[:100], tags=tags)
+                    continue
+                compare(ctx, rc, tags, b, o, "stat" if kind == "sim" else "multiset")
         if J >= 2 and len({tuple(c) for c in map(tuple, fc["cats"])}) >= 2:
             ctx.nt(digest((fc, seed)))
     finally:
@@ -261,7 +297,64 @@ def ex_catalog(ctx, fc, seed=0):
         os.rmdir(tmp)
 
 
-EXECUTORS = {"gridded": ex_gridded, "catalog": ex_catalog}
+def ex_file_order(ctx, case11, seed=0):
+    """The same forecast written to a .dat file in two cell orders (rates and mask flags re-ordered consistently), loaded by the real loader."""
+    import csep
+    import csep.core.poisson_evaluations as pe
+    from . import c11
+    rng = numpy.random.default_rng([seed, 22])
+    lat = case11["lat"]
+    ncell = len(lat["cells"])
+    if ncell < 2:
+        return
+    rc = {"exec": "file_order", "args": {"case11": case11, "seed": seed}}
+    tmp = tempfile.mkdtemp(prefix="c20f-", dir=os.environ.get("VERIF_TMP", "/var/tmp"))
+    try:
+        flags = lat.get("flags") or [1] * ncell
+        good = [k for k in range(ncell) if flags[k] == 1]
+        ev = rng.choice(good, int(rng.integers(2, 12)))
+        dh = float(lat["dh"])
+        lons = numpy.array([float(lat["ax"]) + (lat["cells"][k][0] + 0.5) * dh for k in ev])
+        lats = numpy.array([float(lat["ay"]) + (lat["cells"][k][1] + 0.5) * dh for k in ev])
+        mags = numpy.full(len(ev), float(case11["m0"]) + 0.03)
+        out = []
+        for order in (numpy.arange(ncell), rng.permutation(ncell), numpy.argsort([(-c[1], c[0]) for c in map(tuple, lat["cells"])], axis=0)[:, 0] if False else numpy.arange(ncell)[::-1]):
+            c2 = dict(case11)
+            l2 = dict(lat)
+            l2["cells"] = [lat["cells"][k] for k in order]
+            l2["flags"] = None if lat.get("flags") is None else [lat["flags"][k] for k in order]
+            c2["lat"] = l2
+            c2["rates"] = [case11["rates"][k] for k in order]
+            path = os.path.join(tmp, "f%d.dat" % len(out))
+            c11.write_dat(path, c2)
+            fore = csep.load_gridded_forecast(path, swap_latlon=case11["swap"])
+            res = {}
+            for name, fn in (("N", lambda f, c: pe.number_test(f, c)), ("L", lambda f, c: pe.likelihood_test(f, c, num_simulations=2, seed=seed)),
+                             ("CL", lambda f, c: pe.conditional_likelihood_test(f, c, num_simulations=2, seed=seed)),
+                             ("S", lambda f, c: pe.spatial_test(f, c, num_simulations=2, seed=seed))):
+                cat = fixtures.catalog(lons, lats, mags, region=fore.region)
+                ok, r_, tb = ctx.call(fn, fore, cat)
+                res[name] = sig(r_, "sim") if ok else ("raised", type(r_).__name__)
+            out.append(res)
+        ctx.count(3 * 4)
+        for other in out[1:]:
+            for name in out[0]:
+                ctx.mon("pair:cells", 1)
+                tags = {"perm": "cells-in-file", "test": "poisson." + name, "region": "cartesian-file", "flags": lat.get("flags") is not None}
+                b, o = out[0][name], other[name]
+                if isinstance(b, tuple) or isinstance(o, tuple):
+                    if b != o:
+                        ctx.violate("evaluation raises for one storage order only", rc, observed=repr(o)[:100], expected=repr(b)[:100], tags=tags)
+                    continue
+                compare(ctx, rc, tags, b, o, "multiset" if name == "N" else "stat")
+        ctx.nt(digest(("file", case11["lat"], seed)))
+    finally:
+        for fn_ in os.listdir(tmp):
+            os.remove(os.path.join(tmp, fn_))
+        os.rmdir(tmp)
+
+
+EXECUTORS = {"gridded": ex_gridded, "catalog": ex_catalog, "file_order": ex_file_order}
 
 
 def install(ctx):
@@ -288,6 +381,11 @@ def run(ctx):
         ex_gridded(ctx, case, B.tolist(), seed=int(r.integers(0, 10 ** 6)), quad=quad)
         fc = c10.gen(r, obs_mode=str(r.choice(["normal", "dense", "normal", "unsampled-some"])), empty_mode=[None, "some"][j % 2])
         ex_catalog(ctx, fc, seed=int(r.integers(0, 10 ** 6)))
+        if j % 2 == 0:
+            from . import c11
+            c11case = c11.gen_file_case(r)
+            if len(c11case["lat"]["cells"]) <= 200:
+                ex_file_order(ctx, c11case, seed=j)
         if j % 30 == 0:
             ctx.sample({"gridded": {"cells": len(case["rates"]), "mags": case["nmag"], "events": len(case["ev_cell"]), "region": "quadtree" if quad else "cartesian"},
                         "catalog_forecast_sizes": [len(c) for c in fc["cats"]][:10], "observed": len(fc["obs"])})
